@@ -13,7 +13,7 @@ from vlib import log, MachineryError
 GROUPS = {
     "C08": {"ops": ("sha", "hmac"), "lemmas": "pad (261 lengths), stream (design=>contract of update/finalize buffering, 131 lengths x all 3-way splits), longkey (24 keys)",
             "invs": "L_Pad L_Stream L_LongKey"},
-    "C09": {"ops": ("chacha", "encwk", "decwk"), "lemmas": "involution (56 key/nonce/counter/length cases), advance (counter advance and 2^32 wrap, 14 cases)",
+    "C09": {"ops": ("chacha", "chachal", "encwk", "decwk"), "lemmas": "involution (56 key/nonce/counter/length cases), advance (counter advance and 2^32 wrap, 14 cases)",
             "invs": "L_Involution L_Advance"},
     "C13": {"ops": ("signed",), "lemmas": "envelope (reference-signed buffers satisfy the contract; bit flips, truncation, extension, rotation, other key falsify it; 6 prefix lengths)",
             "invs": "L_Envelope"},
@@ -52,6 +52,8 @@ def case_to_line(c):
     if op == "chacha":
         ctr = c["ctr"][0] * 65536 + c["ctr"][1] if isinstance(c["ctr"], list) else c["ctr"]
         return "chacha key=%s nonce=%s ctr=%d inp=%s" % (hx(c["key"]), hx(c["nonce"]), ctr, hx(c["inp"]))
+    if op == "chachal":
+        return "chachal key=%s nonce=%s ctr=%d n=%d seed=%d" % (hx(c["key"]), hx(c["nonce"]), c["ctr"], c["n"], c["seed"])
     if op == "encwk":
         return "encwk key=%s cid=%s pt=%s" % (hx(c["key"]), hx(c["cid"]), hx(c["data"]))
     if op == "decwk":
@@ -110,6 +112,14 @@ def random_c09(rng, n):
             ctr = rng.randrange(2 ** 32)
         key = rbytes(rng, 32) if rng.random() < 0.9 else [rng.choice([0, 255])] * 32
         out.append({"op": "chacha", "key": key, "nonce": rbytes(rng, 12), "ctr": ctr, "inp": rbytes(rng, ln)})
+    # chunk-sized inputs (what CryptoManager feeds it: whole files): lengths around the sizes at which an implementation could switch
+    # to a bulk path, whole-block and ragged, with zero / non-zero / wrapping initial counters
+    sizes = [1024, 4095, 4096, 4097, 4159, 4160, 8191, 8192, 8193, 16384, 16385, 65535, 65536, 65537, 100001, 262144 + 17, 1048576 + 63]
+    for k in range(max(40, n)):
+        ln = sizes[k % len(sizes)] if k < 2 * len(sizes) else rng.choice([rng.randrange(1024, 70000), rng.choice(sizes) + rng.choice([-1, 0, 1, 31])])
+        nb = (ln + 63) // 64
+        ctr = [0, 1, rng.randrange(1, 2 ** 32), (2 ** 32 - rng.randint(1, nb)) % 2 ** 32, 2 ** 32 - 1][k % 5] if k % 7 else rng.randrange(2 ** 32)
+        out.append({"op": "chachal", "key": rbytes(rng, 32), "nonce": rbytes(rng, 12), "ctr": ctr, "n": ln, "seed": rng.randrange(1, 10 ** 6)})
     for _ in range(max(4, n // 3)):
         key = rbytes(rng, 32) if rng.random() < 0.85 else [0] * 32
         cid = rng.choice([[0, 0, 0, 0], [255, 255, 255, 255], rbytes(rng, 4), rbytes(rng, 4)]) + rbytes(rng, 28)
@@ -198,6 +208,10 @@ def classify(e):
         c = e["ctr"][0] * 65536 + e["ctr"][1]
         nb = (n + 63) // 64
         return ["chacha", "wrap" if c + nb > 2 ** 32 else "edge" if c + nb == 2 ** 32 else "hi" if c >= 2 ** 31 else "lo", nb, n % 64 == 0, sum(e["key"]) == 0]
+    if op == "chachal":
+        c = e["ctr"][0] * 65536 + e["ctr"][1]
+        nb = (e["n"] + 63) // 64
+        return ["chachal", "wrap" if c + nb > 2 ** 32 else "zero" if c == 0 else "hi" if c >= 2 ** 31 else "lo", len(bin(e["n"])), e["n"] % 64 == 0]
     if op in ("encwk", "decwk"):
         return [op, e["cid"][:4] in ([0, 0, 0, 0], [255, 255, 255, 255]), (len(e.get("pt", e.get("ct"))) + 63) // 64, sum(e["key"]) == 0]
     if op == "signed":
@@ -232,7 +246,7 @@ def validate_lanes(trace, timeout):
 def calls(e):
     """number of calls into the real code whose results this event carries (evaluations)"""
     op = e["op"]
-    return {"sha": lambda: 1 + e["nsplits"], "hmac": lambda: 1 + len(e["cands"]), "chacha": lambda: 2, "encwk": lambda: 2, "decwk": lambda: 1,
+    return {"sha": lambda: 1 + e["nsplits"], "hmac": lambda: 1 + len(e["cands"]), "chacha": lambda: 2, "chachal": lambda: 3 + (e["n"] + 63) // 64, "encwk": lambda: 2, "decwk": lambda: 1,
             "signed": lambda: 2}.get(op, lambda: 1)()
 
 
@@ -292,6 +306,8 @@ def describe(e):
         return "HMAC with a %d-byte key over %d bytes" % (len(e["key"]), len(e["msg"]))
     if op == "chacha":
         return "ChaCha20 counter=%d len=%d" % (e["ctr"][0] * 65536 + e["ctr"][1], len(e["inp"]))
+    if op == "chachal":
+        return "ChaCha20 counter=%d len=%d (chunk-sized)" % (e["ctr"][0] * 65536 + e["ctr"][1], e["n"])
     if op in ("encwk", "decwk"):
         return "%s key=%s.. cid[0..3]=%s len=%d" % (op, hx(e["key"][:4]), hx(e["cid"][:4]), len(e.get("pt", e.get("ct"))))
     if op == "signed":
@@ -302,7 +318,7 @@ def describe(e):
 def run(chk):
     pid = chk.pid
     chk.level = "exploration"
-    chk.cov["rule"] = ("structured cases enumerated by TLC (spec/CryptoCases.tla: padding-boundary lengths, cut positions, key lengths, counters at the 2^32 wrap, "
+    chk.cov["rule"] = ("structured cases enumerated by TLC (spec/CryptoCases.tla: padding-boundary lengths, cut positions, key lengths, counters at the 2^32 wrap, chunk-sized ChaCha20 inputs 1 KiB..1 MiB judged block-wise, "
                        "mutation operators) plus VERIF_SEED-random cases; every case runs on the real C++ code and TLC recomputes the result with the executable "
                        "FIPS 180-4 / RFC 2104 / RFC 8439 reference. One case class = (operation, length/block/boundary class, key or counter class, outcome); "
                        "distinct_nontrivial = number of distinct classes among the validated events")
